@@ -243,7 +243,7 @@ func c09Races(p *Prog, r *Report, rule string, roots []*types.Named) int {
 					if len(w.Locks) < len(a.Locks) {
 						bl, ot = w, a
 					}
-					key := fmt.Sprintf("%s: %s %s in %s [entry %s]", tn, bl.Path, modeWord(bl.Mode), FName(bl.Fn), bl.Root)
+					key := fmt.Sprintf("%s: %s %s in %s [entry %s]", tn, canonAccessPath(p, typ, bl.Path), modeWord(bl.Mode), FName(bl.Fn), bl.Root)
 					if _, seen := bad[key]; !seen {
 						bad[key] = blame{bl, ot}
 					}
@@ -587,4 +587,42 @@ func c09PanicSafe(p *Prog, r *Report, rule, pkg string) int {
 		}
 	}
 	return n
+}
+
+
+// canonAccessPath renders an access path with the reference tree's field names where a field was
+// bound by role (so that a recorded known finding keeps matching after a mere rename).
+func canonAccessPath(p *Prog, typ *types.Named, path string) string {
+	if typ.Obj().Pkg() == nil || typ.Obj().Pkg().Name() != "cbreaker" || typ.Obj().Name() != "CircuitBreaker" {
+		return path
+	}
+	st := p.Named("cbreaker", "cbState")
+	stateF := ""
+	if st != nil {
+		if fs := fieldsOfType(typ, func(t types.Type) bool { n, ok := t.(*types.Named); return ok && n.Obj() == st.Obj() }); len(fs) == 1 {
+			stateF = fs[0]
+		}
+	}
+	stored := map[string]bool{}
+	for _, m := range p.Methods(typ) {
+		if stateF == "" || len(FieldStores(m, typ, stateF)) == 0 {
+			continue
+		}
+		for _, b := range m.Blocks {
+			for _, in := range b.Instrs {
+				if s2, ok := in.(*ssa.Store); ok {
+					if n, f, _, ok := fieldOf(s2.Addr); ok && n == typ {
+						stored[f] = true
+					}
+				}
+			}
+		}
+	}
+	untilF := fieldByRole(typ, "until", isTimeT, func(f string) bool { return stored[f] })
+	for actual, ref := range map[string]string{stateF: "state", untilF: "until"} {
+		if actual != "" && actual != ref && (path == "R."+actual || strings.HasPrefix(path, "R."+actual+".")) {
+			path = "R." + ref + strings.TrimPrefix(path, "R."+actual)
+		}
+	}
+	return path
 }
